@@ -199,6 +199,16 @@ def boot(scheduler_type='default', auth_enable=False):
     _uuid.uuid4 = IDS.uuid4
 
     db_api.setup_db()
+    # oslo.db marks "BEGIN already emitted" on the connection record and
+    # clears the mark on commit/rollback *events*; a pool-level reset (a
+    # session dropped without commit and later garbage-collected) rolls the
+    # connection back without those events and would leave the mark stale,
+    # after which SQLite silently runs every statement in autocommit.  A
+    # reset is a rollback: clear the mark there too.
+    import sqlalchemy as _sa
+    _sa.event.listen(sa_base.get_engine().pool, 'reset',
+                     lambda dbapi_con, rec, *a: rec.info.pop(
+                         'in_transaction', None))
 
     CTX = auth_context.MistralContext.from_dict({
         'user_name': 'u', 'user': '1',
